@@ -189,7 +189,7 @@ int xmp_smix_load_sample(xmp_context opaque, int num, const char *path)
 	int chn, rate, bits, size;
 	int retval = -XMP_ERROR_INTERNAL;
 
-	if (num >= smix->ins) {
+	if (num < 0 || num >= smix->ins) {
 		retval = -XMP_ERROR_INVALID;
 		goto err;
 	}
@@ -305,7 +305,7 @@ int xmp_smix_release_sample(xmp_context opaque, int num)
 	struct context_data *ctx = (struct context_data *)opaque;
 	struct smix_data *smix = &ctx->smix;
 
-	if (num >= smix->ins) {
+	if (num < 0 || num >= smix->ins) {
 		return -XMP_ERROR_INVALID;
 	}
 
